@@ -239,6 +239,7 @@ pub fn one_result(u: &Universe, d: &Desc, w: &World, mode: &str, route: &str, st
                 }
             }
             out["inp"] = inp;
+            out["raw"] = json!({"ssig": crate::uni::hex(script_sig.as_bytes()), "wit": witness.iter().map(|x| crate::uni::hex(x)).collect::<Vec<_>>()});
             out["real_weight"] = json!(w1 - w0);
             out["real_wit_bytes"] = json!(crate::input::wit_size(&witness));
             out["real_ssig_bytes"] = json!(script_sig.len());
@@ -283,7 +284,11 @@ pub fn run_case(u: &Universe, case: &Value, routes: &[&str]) -> Vec<Value> {
                 for w in &worlds {
                     for mode in ["nonmall", "mall"] {
                         for route in routes {
-                            res.push(one_result(u, &d, w, mode, route, Some(&ev["st"]["script"])));
+                            let mut r1 = one_result(u, &d, w, mode, route, Some(&ev["st"]["script"]));
+                            if let Some(o) = r1.as_object_mut() {
+                                o.remove("raw");
+                            }
+                            res.push(r1);
                         }
                     }
                 }
